@@ -230,11 +230,11 @@ def montecarlo(ctx):
 
 def wiring(ctx):
     tr = ctx.trace("LinearFourRates", "update", assume={"_drift_state": None, "parallelize": False}, nonnull=NN)
-    rs = [e for e in tr.mutations("_r_stat") if e.how == "setitem" and e.func.name == "_calculate_rate_bounds"]
+    rs = [e for e in tr.mutations("_r_stat") if e.how == "setitem" and len(e.path) == 2]   # _r_stat[step][rate] = ..., wherever the per-rate step lives
     ctx.require(rs, "statistic store")
     stat = rs[0].value
     for attr, lo, hi in (("_warning_states", "lb_warn", "ub_warn"), ("_alarm_states", "lb_detect", "ub_detect")):
-        mu = [e for e in tr.mutations(attr) if e.how == "setitem"]
+        mu = [e for e in tr.mutations(attr) if e.how == "setitem" and len(e.path) == 2]   # flags[step][rate] = ... (not the creation of the step's entry)
         ctx.ob("ROLE", "LinearFourRates.update", "flag store into %s" % attr, len(mu) == 1, "")
         for e in mu:
             ds = q.disjuncts(e.value)
@@ -353,13 +353,15 @@ def steps(ctx):
     ssr = ssr0 + const(1)
     lp = [e for e in tr.of("loop") if q.stack_has(e, U)]
     first_call = [e for e in tr.calls() if e.callee[0] == "closure" and e.callee[1].endswith("_calculate_rate_bounds")]
-    barrier = min([e.seq for e in lp + first_call] or [10 ** 9])
+    first_rate_store = [e for a_ in ("_r_stat", "_p_table") for e in tr.mutations(a_) if e.how == "setitem" and len(e.path) == 2]
+    barrier = min([e.seq for e in lp + first_call + first_rate_store] or [10 ** 9])
     for attr, kind in (("_r_stat", "copy"), ("_p_table", "copy"), ("_warning_states", "false"), ("_alarm_states", "false")):
-        mu = [e for e in tr.mutations(attr) if e.how == "method:update" and q.stack_has(e, U)]
+        # the entry of the step is created with table.update({step: entry}) or table[step] = entry
+        mu = [e for e in tr.mutations(attr) if q.stack_has(e, U) and (e.how == "method:update" or (e.how == "setitem" and len(e.path) == 1))]
         ok = len(mu) == 1
-        why = "found %d dict.update calls" % len(mu)
+        why = "found %d creations of the step's entry" % len(mu)
         if ok:
-            it = _dict_items(mu[0].value)
+            it = _dict_items(mu[0].value) if mu[0].how == "method:update" else [(mu[0].path[0][1], mu[0].value)]
             ok = it is not None and len(it) == 1 and T.same(it[0][0], ssr)
             why = "key %s" % (q.short(it[0][0], 60) if it else None)
             if ok and kind == "copy":
@@ -373,7 +375,7 @@ def steps(ctx):
         ctx.ob("IDX-step", U, "%s gets its entry for the current step before the rates are processed (%s)" % (attr, "copy of the previous step" if kind == "copy" else "all flags False"), ok, why, mu[0] if mu else None)
     # rate table and denominators written by the per-rate step
     rets = [x.d.get("value") for x in tr.events if x.kind == "exit" and x.d.get("fi") is not None and x.fi.name == "_get_four_rates"]
-    pm = [e for e in tr.mutations("_p_table") if e.how == "setitem"]
+    pm = [e for e in tr.mutations("_p_table") if e.how == "setitem" and len(e.path) == 2]
     ctx.ob("ROLE", U, "the rate table is updated per rate", len(pm) == 1 and len(rets) == 2, "")
     rate = None
     if len(pm) == 1 and len(rets) == 2:
@@ -437,10 +439,20 @@ def decision(ctx):
             se = c01._site_pc_ev(tr, e)
             ok = all(has(se, c, neg) for c, neg in conds) and len(guards(se)) == len(conds)
             ctx.ob("GRD-chain", U, what, ok, "guards: %s" % "; ".join(q.short(g, 90) for g in guards(se)), se)
-            # the public log gets the same value on the same path
-            lg = [m for m in tr.mutations("all_drift_states") if m.how == "method:append" and set(map(id, m.pc)) == set(map(id, se.pc))]
-            okl = len(lg) == 1 and (_dict_items(lg[0].value) is None) and lg[0].value == atom(("tuple", (e.value,)))
-            ctx.ob("PAIR", U, "all_drift_states records the state stored (%s)" % val, okl, "", se)
+            # the public log gets the same value on the same path: decided on the final state (log' = log + [state'] in every case),
+            # however the three cases are written (one append per branch, or one append of the value computed first)
+            from .common import joint_leaves
+            fa = tr.final.attrs.get("all_drift_states") if tr.final is not None else None
+            fd = tr.final.attrs.get("_drift_state") if tr.final is not None else None
+            okl = fa is not None and fd is not None
+            seen_val = False
+            if okl:
+                for _cs, (la_, ld_) in joint_leaves([fa, fd]):
+                    if q.short(ld_, 20) != val:
+                        continue
+                    seen_val = True
+                    okl = okl and la_ == atom(("appended", A("all_drift_states"), ld_))
+            ctx.ob("PAIR", U, "all_drift_states records the state stored (%s)" % val, okl and seen_val, q.short(fa, 120) if fa is not None else "", se)
 
 
 def cache_complete(ctx):
